@@ -378,3 +378,101 @@ for NT, S in [('uint64_t', 'u64'), ('uint32_t', 'u32')]:
         inst='NodeType=%s, PrefixSumType = any container satisfying ps_at; scale-factor vector through its ghost view' % NT,
         says='piece id is [LEAST(blockWeight*scale[id-1]), LEAST(blockWeight*scale[id])) (stated against an arbitrary probe in both directions), inside [0,numNodes); first piece starts at 0, last piece ends at numNodes; edge range = prefix-sum values at the node bounds',
     ))
+
+# lemmas over the CONTRACT of divideNodesBinarySearch: the pieces for
+# id = 0..total-1 are in order, share their boundaries and cover [0,numNodes).
+DNBS_SETUP = '''
+  uint64_t numEdges, nodeWeight, edgeWeight, id, total, edgeOffset, nodeOffset; %(NT)s numNodes;
+  const PS* ps; SF* sf;
+  uint32_t a, b, c;  /* prefix-summed scale factors: entries id-1, id, id+1 */
+  g_N = numNodes; g_E = numEdges; g_nw = nodeWeight; g_ew = edgeWeight; g_eo = edgeOffset; g_no = nodeOffset; g_total = total;
+  __CPROVER_assume(PS_BOUNDS && g_nb >= 1 && total >= 1 && id < total);
+  g_bw = (TOTALW + g_nb - 1) / g_nb;
+  lemma_ceil_div();
+'''
+for NT, S in [('uint64_t', 'u64'), ('uint32_t', 'u32')]:
+    UNITS.append(Unit(
+        name='lemma_dnbs_adjacent_' + S, kind='lemma', prelude=[PS, SF],
+        uses=['lemma_ceil_div', 'divideNodesBinarySearch_' + S],
+        harness=DNBS_SETUP % dict(NT=NT) + '''
+  __CPROVER_assume(id + 1 < total && a <= b && b <= c && c <= g_nb && (id == 0 ==> a == 0) && (id + 2 == total ==> c == g_nb));
+  GV_WITNESS(numNodes == 4 && numEdges == 6 && nodeWeight == 0 && edgeWeight == 1 && edgeOffset == 0 && nodeOffset == 0 && total == 2 && id == 0 && g_nb == 2 && a == 0 && b == 1 && c == 2 && g_L == 2 && g_EL == 4 && g_ELM1 == 2 && g_k == 2 && g_Ek == 4);
+  g_B = b; g_T = g_bw * g_B;          /* probe = the boundary shared by pieces id and id+1 */
+  __CPROVER_assume(PROBE_OK);
+  g_id = id; g_bl = a; g_bu = b;
+  struct graph_range p = divideNodesBinarySearch_%(S)s(numNodes, numEdges, nodeWeight, edgeWeight, id, total, ps, sf, edgeOffset, nodeOffset);
+  g_id = id + 1; g_bl = b; g_bu = c;
+  struct graph_range q = divideNodesBinarySearch_%(S)s(numNodes, numEdges, nodeWeight, edgeWeight, id + 1, total, ps, sf, edgeOffset, nodeOffset);
+  __CPROVER_assert(p.first.second == q.first.first, "node pieces id and id+1 share their boundary");
+  __CPROVER_assert(p.first.first <= q.first.first && p.first.second <= q.first.second, "node pieces appear in order");
+  /* prophecy on the node probe: it is never read by the code, so the edge-range posts hold for it whatever it is */
+  __CPROVER_assume(g_k == p.first.second);
+  if (p.first.first != p.first.second && q.first.first != q.first.second)
+    __CPROVER_assert(p.second.second == q.second.first, "edge ranges of consecutive non-empty pieces share their boundary");
+''' % dict(S=S), backend='ib', timeout=400,
+        says='pairwise disjoint, in order: piece(id).end == piece(id+1).begin for nodes and (non-empty pieces) edges'))
+    UNITS.append(Unit(
+        name='lemma_dnbs_ends_' + S, kind='lemma', prelude=[PS, SF],
+        uses=['lemma_ceil_div', 'divideNodesBinarySearch_' + S],
+        harness=DNBS_SETUP % dict(NT=NT) + '''
+  __CPROVER_assume(a <= b && b <= g_nb && (id == 0 ==> a == 0) && (id + 1 == total ==> b == g_nb) && g_B <= g_nb);
+  GV_WITNESS(numNodes == 4 && numEdges == 6 && nodeWeight == 0 && edgeWeight == 1 && edgeOffset == 0 && nodeOffset == 0 && total == 2 && id == 1 && g_nb == 2 && a == 1 && b == 2 && g_B == 1 && g_L == 2 && g_EL == 4 && g_ELM1 == 2 && g_k == 2 && g_Ek == 4);
+  g_T = g_bw * g_B;
+  __CPROVER_assume(PROBE_OK);
+  g_id = id; g_bl = a; g_bu = b;
+  struct graph_range p = divideNodesBinarySearch_%(S)s(numNodes, numEdges, nodeWeight, edgeWeight, id, total, ps, sf, edgeOffset, nodeOffset);
+  if (id == 0) __CPROVER_assert(p.first.first == 0, "first piece starts at node 0");
+  if (id + 1 == total) __CPROVER_assert(p.first.second == numNodes, "last piece ends at numNodes");
+  __CPROVER_assert(p.first.first <= p.first.second && p.first.second <= numNodes, "piece inside [0,numNodes)");
+''' % dict(S=S), backend='ib', timeout=400,
+        says='exact cover: first piece starts at 0, last piece ends at numNodes'))
+
+# ---------------------------------------------------------------------------
+# unitRangeCornerCaseHandle (GraphHelpers.cpp)
+VEC32 = 'uint32_t gq; /* ghost probe index (32-bit) */\n'
+RANGES_POST = '''(%(r)s->data[0] == beginNode && %(r)s->data[unitsToSplit] == endNode && \\
+   (gq < unitsToSplit ==> %(r)s->data[gq] <= %(r)s->data[gq + 1]) && \\
+   (gq <= unitsToSplit ==> (beginNode <= %(r)s->data[gq] && %(r)s->data[gq] <= endNode)))'''
+UNITS.append(Unit(
+    name='unitRangeCornerCaseHandle', src=GH_C,
+    anchor=r'bool unitRangeCornerCaseHandle\(uint32_t unitsToSplit, uint32_t beginNode,',
+    proto='bool unitRangeCornerCaseHandle(uint32_t unitsToSplit, uint32_t beginNode, uint32_t endNode, struct gv_vec_u32* returnRanges)',
+    contract='''
+__CPROVER_requires(GV_VEC_VALID(returnRanges, ((size_t)1 << 16) + 1) && unitsToSplit >= 1 && returnRanges->size == (size_t)unitsToSplit + 1 && beginNode <= endNode)
+__CPROVER_ensures(__CPROVER_return_value ==> ''' + (RANGES_POST % dict(r='returnRanges')) + ''')
+__CPROVER_ensures(!__CPROVER_return_value ==> (beginNode != endNode && unitsToSplit != 1 && unitsToSplit <= endNode - beginNode))
+__CPROVER_ensures(returnRanges->size == (size_t)unitsToSplit + 1)
+__CPROVER_assigns(__CPROVER_object_whole(returnRanges->data))
+''',
+    prelude=[VEC, VEC32],
+    lower=[refs(['returnRanges'], 7), index(r'\(\*returnRanges\)', 'GV_AT_U32', 7)],
+    loops={1: '''
+__CPROVER_assigns(i, __CPROVER_object_whole(returnRanges->data))
+__CPROVER_loop_invariant(i <= unitsToSplit && returnRanges->data[0] == beginNode)
+__CPROVER_loop_invariant(gq <= i ==> returnRanges->data[gq] == beginNode)
+__CPROVER_loop_invariant(gq + 1 <= i ==> returnRanges->data[gq + 1] == beginNode)
+__CPROVER_loop_invariant(returnRanges->data[i] == beginNode)
+__CPROVER_decreases(unitsToSplit - i)
+''', 2: '''
+__CPROVER_assigns(i, current_node, __CPROVER_object_whole(returnRanges->data))
+__CPROVER_loop_invariant(i <= totalNodes && current_node == beginNode + i && returnRanges->data[0] == beginNode)
+__CPROVER_loop_invariant(gq <= i ==> returnRanges->data[gq] == beginNode + gq)
+__CPROVER_loop_invariant(gq + 1 <= i ==> returnRanges->data[gq + 1] == beginNode + gq + 1)
+__CPROVER_loop_invariant(returnRanges->data[i] == beginNode + i)
+__CPROVER_decreases(totalNodes - i)
+''', 3: '''
+__CPROVER_assigns(i, __CPROVER_object_whole(returnRanges->data))
+__CPROVER_loop_invariant(totalNodes <= i && i <= unitsToSplit && returnRanges->data[0] == beginNode)
+__CPROVER_loop_invariant(gq <= totalNodes ==> returnRanges->data[gq] == beginNode + gq)
+__CPROVER_loop_invariant((totalNodes < gq && gq <= i) ==> returnRanges->data[gq] == endNode)
+__CPROVER_loop_invariant(gq + 1 <= totalNodes ==> returnRanges->data[gq + 1] == beginNode + gq + 1)
+__CPROVER_loop_invariant((totalNodes < gq + 1 && gq + 1 <= i) ==> returnRanges->data[gq + 1] == endNode)
+__CPROVER_loop_invariant(returnRanges->data[i] == endNode)
+__CPROVER_decreases(unitsToSplit - i)
+'''},
+    backend='sat',
+    inst='std::vector<uint32_t> modelled by stubs/gv_vec.h',
+    says='corner cases (no nodes, one unit, more units than nodes): the unit offsets start at beginNode, never decrease, stay inside [beginNode,endNode] and end at endNode',
+    replay=dict(prog='unit_corner', args=['unitsToSplit', 'beginNode', 'endNode'], sources=['libgalois/src/GraphHelpers.cpp']),
+    trusted=['stubs/gv_vec.h'],
+))
